@@ -24,7 +24,8 @@ ASSUMPTIONS = ["each I(.) is a non-magnetic call of the same 2-D kernel at that 
 REQUIRED_MONITORS = ["equals_channel_sum", "zero_magnetisation_is_nonmagnetic"]
 REQUIRED_BUCKETS = {"quick": ["up_frac:0", "up_frac:0.5", "up_frac:1", "up_frac:outside", "up_frac:random", "axis:up_theta90",
                               "axis:tilted", "magnetic_slds:1", "magnetic_slds:all", "vector_sld", "dispersity", "oriented",
-                              "lane:asan", "nonmagnetic_sld_with_nonzero_angles"]}
+                              "lane:asan", "nonmagnetic_sld_with_nonzero_angles", "mesh>100",
+                              "angles:outside-nominal-range"]}
 REQUIRED_BUCKETS["thorough"] = REQUIRED_BUCKETS["quick"]
 
 
@@ -76,6 +77,20 @@ def run_case(case, rec):
                 if w > 0:
                     sas.add_pd(pars, p, "gaussian", 3, w, 2.0)
         rec.bucket("dispersity")
+    if k % 4 == 3:
+        # a size mesh of more than 100 points: the compiled kernel is re-entered with its running sums
+        sizes = [p for p in sas.usable_pd(i, pars, "2d") if p.type == "volume"]
+        if sizes and sas.eval_cost(i, "2d") < 5e-4:
+            p = sizes[int(rng.integers(len(sizes)))]
+            lo, hi = p.limits
+            v = pars[p.name]
+            room = min(abs(v - lo), abs(hi - v))/abs(v)
+            w = min(0.15, 0.9*room/2.0)
+            if w > 0:
+                for kk in [kk for kk in pars if kk.endswith(("_pd", "_pd_n", "_pd_nsigma", "_pd_type"))]:
+                    del pars[kk]
+                sas.add_pd(pars, p, "gaussian", int(rng.choice([107, 131, 215])), w, 2.0)
+                rec.bucket("mesh>100")
     if i.parameters.orientation_parameters:
         rec.bucket("oriented")
         for a in i.parameters.orientation_parameters:
@@ -95,6 +110,10 @@ def run_case(case, rec):
     for s in slds:
         if s in mags:
             M[s] = (float(rng.uniform(-5, 5)) or 1.0, float(rng.uniform(-90, 90)), float(rng.uniform(-180, 180)))
+            if (k + len(name)) % 3 == 1:
+                # directions given outside the nominal range of the angles (angles are directions, any real value)
+                M[s] = (M[s][0], float(rng.choice([-1, 1]))*float(rng.uniform(95, 260)), float(rng.uniform(190, 400)))
+                rec.bucket("angles:outside-nominal-range")
         elif rng.random() < 0.5:
             # zero magnitude but non-zero angles: must behave as non-magnetic
             M[s] = (0.0, float(rng.uniform(-90, 90)), float(rng.uniform(-180, 180)))
@@ -109,6 +128,9 @@ def run_case(case, rec):
     if k % 3 == 0:
         ut, up = 90.0, float(rng.choice([0.0, 35.0, 90.0]))
         rec.bucket("axis:up_theta90")
+    elif (k + len(name)) % 3 == 1:
+        ut, up = float(rng.uniform(365, 500)), float(rng.choice([-1, 1]))*float(rng.uniform(185, 340))
+        rec.bucket("axis:tilted", "angles:outside-nominal-range")
     else:
         ut, up = float(rng.uniform(5, 175)), float(rng.uniform(5, 175))
         rec.bucket("axis:tilted")
